@@ -55,15 +55,16 @@ def decHeaderType (cc : Bytes) (large toEnd : Bool) (size : Nat) (bs : Bytes) :
     some ({ typ := .uuid id, large := large, toEnd := toEnd, size := size }, bs)
   else some ({ typ := .std cc, large := large, toEnd := toEnd, size := size }, bs)
 
-/-- `avail` = number of bytes from the start of this box to the end of the file
-(only used for a size field of 0) -/
-def decHeader (bs : Bytes) : Option (Header × Bytes) :=
+/-- `tail` = number of bytes between the end of `bs` and the end of the file: a
+size field of 0 means "to the end of the *file*" (`src.seek(0, 2)`), also for a
+box inside a container -/
+def decHeader (tail : Nat) (bs : Bytes) : Option (Header × Bytes) :=
   andThen (decU32 bs) fun sz r1 =>
   andThen (takeN 4 r1) fun cc r2 =>
   if sz = 1 then
     andThen (decU64 r2) fun lsz r3 =>
     if lsz = 0 then none else decHeaderType cc true false lsz r3
-  else if sz = 0 then decHeaderType cc false true bs.length r2
+  else if sz = 0 then decHeaderType cc false true (bs.length + tail) r2
   else decHeaderType cc false false sz r2
 
 /-- the sizes a header of the given form can carry -/
